@@ -100,6 +100,14 @@ type vecFile struct {
 	N []Nest
 	G map[string][]int
 	X []string // texts near the signature grammar (single-token edits of valid signatures)
+	B []BigVec // dynamic values exactly at / just below a documented cap
+}
+
+// BigVec is a large regular value given by its bytes only.
+type BigVec struct {
+	Kind  string
+	N     int
+	Bytes []int
 }
 
 func readVectors(path string) *vecFile {
@@ -143,6 +151,12 @@ func readVectors(path string) *vecFile {
 				hlib.Fatal("bad N: %v", err)
 			}
 			f.N = append(f.N, v)
+		case "B":
+			var v BigVec
+			if err := json.Unmarshal(rec.V, &v); err != nil {
+				hlib.Fatal("bad B: %v", err)
+			}
+			f.B = append(f.B, v)
 		case "X":
 			var v string
 			if err := json.Unmarshal(rec.V, &v); err != nil {
